@@ -1442,10 +1442,12 @@ def sensors_fans():
     for base in basenames:
         try:
             current = int(bcat(base + '_input'))
+            unit_name = cat(
+                os.path.join(os.path.dirname(base), 'name')
+            ).strip()
         except OSError as err:
             debug(err)
             continue
-        unit_name = cat(os.path.join(os.path.dirname(base), 'name')).strip()
         label = cat(base + '_label', fallback='').strip()
         ret[unit_name].append(_common.sfan(label, current))
 
